@@ -167,7 +167,7 @@ def einsum(expr, *args, **kwargs):
         out_idx = set("".join(part_in_idx)) & set(
             final_index + "".join(in_idx)
         )
-        out_idx = "".join(sorted(out_idx, key=lambda x: base_order[x]))
+        out_idx = "".join(sorted(out_idx, key=lambda x: (base_order[x], x)))
         in_idx.append(out_idx)
         expr_i = "{}->{}".format(",".join(part_in_idx), out_idx)
         result = tensor_einsum_reduce_sum(expr_i, *part_data, order=base_order)
@@ -187,7 +187,9 @@ def tensor_einsum_reduce_sum(expr, *args, order):
             warnings.warn("inner product")
             return tf.einsum(expr, *args)
 
-    require_order = sorted(set(ein_s[0]) - {","}, key=lambda x: order[x])
+    require_order = sorted(
+        set(ein_s[0]) - {","}, key=lambda x: (order[x], x)
+    )
 
     # transpose
     t_args = []
@@ -195,7 +197,7 @@ def tensor_einsum_reduce_sum(expr, *args, order):
 
     def args_it(it):
         i, j = idxs[it], args[it]
-        sorted_idx = sorted(i, key=lambda x: order[x])
+        sorted_idx = sorted(i, key=lambda x: (order[x], x))
         if list(i) == sorted_idx:
             return j
         else:
